@@ -1,6 +1,6 @@
 # C14 — stop_token: one winning stop request, each callback exactly once (structural part; DESIGN.md §5 C14)
 import re
-from engine.core import AnalysisBroken, P, T, callee_of, callee_short, cond_atoms, loc_of, strip, forward, block_path, is_moved, walk
+from engine.core import subexprs, AnalysisBroken, P, T, callee_of, callee_short, cond_atoms, loc_of, strip, forward, block_path, is_moved, walk
 from engine.kinds import (LockFlow, FactFlow, check_guarded, precedes_on_all_paths, always_followed_by)
 from .common import facts, lib, driver, witness
 
@@ -17,7 +17,7 @@ EXPLANATION = (
 ASSUMPTIONS = ["pika::memory::intrusive_ptr copy/move/assign only affect the token reference count (intrusive_ptr_add_ref/release)",
                "std::atomic operations are the only accesses to state_"]
 THOROUGH_CONFIGS = [["-UNDEBUG", "-DPIKA_DEBUG"]]
-FLOORS = {"C14.R1": 6, "C14.R2": 6, "C14.R3": 5, "C14.R4": 8, "C14.R5": 6, "C14.R6": 4, "C14.R7": 8}
+FLOORS = {"C14.R1": 6, "C14.R2": 6, "C14.R3": 5, "C14.R4": 8, "C14.R5": 6, "C14.R6": 4, "C14.R7": 8, "C14.R8": 3}
 
 SS = "pika::detail::stop_state"
 TRY_GUARDS = ("pika::detail::scoped_lock_if_not_stopped", "pika::detail::scoped_lock_and_request_stop")
@@ -39,6 +39,8 @@ def or_leaves(e, acc):
 
 def run(rep, tier):
     rep.rule("C14.R1", "K8: token_ref_mask, stop_requested_flag, source_ref_mask, locked_flag are disjoint, cover 64 bits; increments are the masks' lowest bits")
+    rep.rule("C14.R8", "K4/K8 (generation agreement): in every compare-exchange on the packed word state_ the desired word is computed from the same generation of the word as the "
+             "expected one - after a failed attempt or a reload both are recomputed before the next attempt (a stale desired word rolls back other threads' updates of the counts / the stop bit)")
     rep.rule("C14.R2", "K4: every CAS on state_ in lock_and_request_stop/lock_if_not_stopped sees !stop_requested(word) established since the word's last (re)load; flags ORed as required; true only after CAS success")
     rep.rule("C14.R3", "K1: callbacks_ accessed and list helpers called only with the stop_state lock held")
     rep.rule("C14.R4", "K2/K6: callbacks run unlocked after being unlinked; finished flag published with release; execute() only from the three known sites; remove_callback waits unless on the signalling thread")
@@ -132,6 +134,53 @@ def run(rep, tier):
                         rep.ok("C14.R2", fn, "returns true only after a successful compare-exchange")
                     else:
                         rep.bad("C14.R2", fn, loc_of(ev), "true-without-cas", "returns true without a successful compare-exchange")
+
+    # ---- R8: the desired word of a compare-exchange is computed from the same generation of the word as the expected one
+    from engine.core import forward
+    n8 = 0
+    for fn in [f for f in F.fns if f.qname.startswith(SS + "::") and f.parent == -1 and not f.pattern]:
+        cas = [(b, i, ev) for b, i, ev in fn.all_events() if ev.get("k") == "call" and
+               callee_short(ev).startswith("compare_exchange") and P(ev.get("recv")) == "this->state_"]
+        for cb, ci, cev in cas:
+            E = P(cev["args"][0])
+            dvars = sorted({x.get("name") for x in subexprs(cev["args"][1], lambda y: isinstance(y, dict) and y.get("k") == "var" and not y.get("global") and "val" not in y)})
+            if len(dvars) != 1:
+                raise AnalysisBroken("%s: cannot identify the word the desired value %s is computed from" % (fn.qname, T(cev["args"][1])))
+            W = dvars[0]
+            n8 += 1
+            if W == E:
+                rep.ok("C14.R8", fn, "CAS at %s: expected and desired are computed from the same variable (%s), which a failed attempt refreshes" % (loc_of(cev), W))
+                continue
+            word = lambda n, t: re.search(r"(^|[^\w.>])%s($|[^\w])" % re.escape(n), t) is not None
+            stale = []
+
+            def tr(st, e, pos, E=E, W=W, cev=cev, stale=stale):
+                if e is cev:
+                    if st != "sync":
+                        stale.append(st)
+                    return "unsync"         # a failed attempt stores the observed word into E
+                k = e.get("k")
+                tgt = rhs = None
+                if k == "decl" and e.get("init") is not None:
+                    tgt, rhs = e.get("var"), T(e["init"])
+                elif k == "write":
+                    tgt, rhs = P(e["lhs"]), T(e.get("rhs"))
+                if tgt == E:
+                    return "sync" if (rhs is not None and word(W, rhs) and e.get("op", "=") == "=") else "unsync"
+                if tgt == W:
+                    return "unsync"
+                return st
+            forward(fn, "unsync", tr, None, lambda a, b: a if a == b else "unsync")
+            if stale:
+                rep.bad("C14.R8", fn, loc_of(cev), "cas-desired-stale:" + fn.qname.rsplit("::", 1)[-1],
+                        "the compare-exchange at %s installs a word computed from '%s' while it expects '%s', and on some path '%s' is not recomputed from '%s' after '%s' or '%s' changed "
+                        "(a failed attempt stores the observed word into '%s'): a retry writes back a stale copy of the packed word and rolls back what other threads changed meanwhile - "
+                        "token/source counts (stop_possible wrong, state freed early) or the stop-requested bit (a second request_stop wins)"
+                        % (loc_of(cev), W, E, E, W, W, E, E))
+            else:
+                rep.ok("C14.R8", fn, "CAS at %s: '%s' is recomputed from '%s' after every change of either before the next attempt" % (loc_of(cev), E, W))
+    if n8 < 3:
+        raise AnalysisBroken("C14.R8 examined only %d compare-exchange sites on state_" % n8)
 
     # ---- R3
     lockfns = {}
